@@ -227,11 +227,12 @@ def rule_k6(chk: Check, F, ix: Index, thorough: bool):
         _env6 = dict(_mpc6(repo.TOKENIZE))
     except Exception:
         _env6 = {}
+    _env6["_compile"] = _re6.compile
     _env6["re"] = _types.SimpleNamespace(search=_re6.search, match=_re6.match, fullmatch=_re6.fullmatch, compile=_re6.compile,
                                          DOTALL=_re6.DOTALL, S=_re6.S)
     for line, want in cases.items():
         try:
-            got = bool(_mini(f.node, dict(_env6, self=_types.SimpleNamespace(line=line, end_progs=(1,))), {"compile"}))
+            got = bool(_mini(f.node, dict(_env6, self=_types.SimpleNamespace(line=line, end_progs=(1,), pos=0, max=len(line))), {"compile", "_compile"}, local_calls=True))
         except _EvErr as e:
             und = str(e)
             break
@@ -241,7 +242,7 @@ def rule_k6(chk: Check, F, ix: Index, thorough: bool):
         chk.undecided("K6-continuation", "in_continued_string", f.where, f"continuation test not evaluable: {und}")
     else:
         try:
-            off = bool(_mini(f.node, dict(_env6, self=_types.SimpleNamespace(line="'abc" + BS + "\n", end_progs=())), {"compile"}))
+            off = bool(_mini(f.node, dict(_env6, self=_types.SimpleNamespace(line="'abc" + BS + "\n", end_progs=(), pos=0, max=6)), {"compile", "_compile"}, local_calls=True))
         except _EvErr:
             off = False
         chk.require(not bad and not off, "K6-continuation", "in_continued_string", f.where,
